@@ -113,8 +113,93 @@ class Commute(ast.NodeTransformer):
         return ast.BinOp(left=node.right, op=node.op, right=node.left)
 
 
+def _pure(e):
+    """an expression without calls, comprehensions, lambdas: no side effects, no evaluation-order
+    issues when it is moved"""
+    return not any(isinstance(n, (ast.Call, ast.ListComp, ast.GeneratorExp, ast.DictComp,
+                                  ast.SetComp, ast.Lambda, ast.Await, ast.Yield, ast.NamedExpr,
+                                  ast.Starred))
+                   for n in ast.walk(e))
+
+
+class ExtractTemp(ast.NodeTransformer):
+    """y = <a> OP <b>  ->  _tmpK = <b>; y = <a> OP _tmpK   (pure operands only)"""
+    def __init__(self):
+        self.k = 0
+
+    def _block(self, body):
+        out = []
+        for st in body:
+            st = self.visit(st)
+            if isinstance(st, ast.Assign) and len(st.targets) == 1 and \
+                    isinstance(st.targets[0], ast.Name) and isinstance(st.value, ast.BinOp) and \
+                    isinstance(st.value.right, (ast.BinOp, ast.Subscript, ast.Attribute)) and \
+                    _pure(st.value) and not isinstance(st.value.op, ast.MatMult):
+                self.k += 1
+                t = '_tmp%d' % self.k
+                out.append(ast.Assign(targets=[ast.Name(t, ast.Store())], value=st.value.right))
+                st = ast.Assign(targets=st.targets, value=ast.BinOp(
+                    left=st.value.left, op=st.value.op, right=ast.Name(t, ast.Load())))
+            out.append(st)
+        return out
+
+    def generic_visit(self, node):
+        node = super().generic_visit(node)
+        for fld in ('body', 'orelse', 'finalbody'):
+            b = getattr(node, fld, None)
+            if isinstance(b, list) and b and isinstance(b[0], ast.stmt) and \
+                    not isinstance(node, ast.ClassDef):
+                setattr(node, fld, self._block(b))
+        return node
+
+
+class InlineTemp(ast.NodeTransformer):
+    """t = <pure e>; <next statement uses t once, nowhere else>  ->  e substituted"""
+
+    def _uses(self, node, name):
+        return [n for n in ast.walk(node) if isinstance(n, ast.Name) and n.id == name]
+
+    def _block(self, body, scope):
+        out = []
+        i = 0
+        while i < len(body):
+            st = body[i]
+            nxt = body[i + 1] if i + 1 < len(body) else None
+            if isinstance(st, ast.Assign) and len(st.targets) == 1 and \
+                    isinstance(st.targets[0], ast.Name) and _pure(st.value) and \
+                    isinstance(st.value, (ast.BinOp, ast.Subscript, ast.Attribute)) and \
+                    nxt is not None and isinstance(nxt, (ast.Assign, ast.AugAssign, ast.Return)) \
+                    and not isinstance(nxt, (ast.For, ast.While, ast.If)):
+                t = st.targets[0].id
+                all_uses = self._uses(scope, t)
+                uses_next = [n for n in self._uses(nxt, t) if isinstance(n.ctx, ast.Load)]
+                free = {n.id for n in ast.walk(st.value) if isinstance(n, ast.Name)}
+                stored_next = {n.id for n in ast.walk(nxt) if isinstance(n, ast.Name) and
+                               isinstance(n.ctx, ast.Store)}
+                if len(all_uses) == 2 and len(uses_next) == 1 and not (free & stored_next) and \
+                        t not in stored_next:
+                    val = st.value
+
+                    class R(ast.NodeTransformer):
+                        def visit_Name(self, n):
+                            if n.id == t and isinstance(n.ctx, ast.Load):
+                                return val
+                            return n
+                    out.append(R().visit(nxt))
+                    i += 2
+                    continue
+            out.append(st)
+            i += 1
+        return out
+
+    def visit_FunctionDef(self, node):
+        self.generic_visit(node)
+        node.body = self._block(node.body, node)
+        return node
+
+
 MODULE_TRANSFORMS = {'transpose': TtoTranspose, 'sqrtform': SqrtForm, 'ifinvert': IfInvert,
-                     'commute': Commute}
+                     'commute': Commute, 'extract': ExtractTemp, 'inline': InlineTemp}
 
 
 def transforms(root):
